@@ -138,9 +138,9 @@ V('c06-floor-zero-ttl', 'C06', 'C06.FLOORFLUSH', RMF,
 V('c06-floor-resets-created', 'C06', 'C06.FLOORFLUSH', RMF,
   "record.set_created_ttl(record.created, _DNS_PTR_MIN_TTL)", "record.set_created_ttl(now, _DNS_PTR_MIN_TTL)")
 V('c06-flush-ge', 'C06', 'C06.FLOORFLUSH', '_cache.py',
-  "if (now - created_double > _ONE_SECOND) and record not in answers_rrset:", "if (now - created_double >= _ONE_SECOND) and record not in answers_rrset:")
+  "                    (now - created_double > _ONE_SECOND)\n", "                    (now - created_double >= _ONE_SECOND)\n")
 V('c06-flush-ignores-datagram', 'C06', 'C06.FLOORFLUSH', '_cache.py',
-  "if (now - created_double > _ONE_SECOND) and record not in answers_rrset:", "if now - created_double > _ONE_SECOND:")
+  "                    and record not in answers_rrset\n", "")
 V('c06-flush-immediate', 'C06', 'C06.FLOORFLUSH', '_cache.py',
   "record.set_created_ttl(now, 1)", "record.set_created_ttl(now, 0)")
 V('c06-flush-all-records', 'C06', 'C06.FLOORFLUSH', RMF,
@@ -155,7 +155,7 @@ V('c06-twin-list-copy', 'C06', 'C06.SNAPSHOT', RMF,
   "        for listener in self.listeners.copy():\n            listener.async_update_records_complete()",
   "        for listener in list(self.listeners):\n            listener.async_update_records_complete()", expect='silent')
 V('c06-twin-flush-demorgan', 'C06', 'C06.FLOORFLUSH', '_cache.py',
-  "if (now - created_double > _ONE_SECOND) and record not in answers_rrset:", "if not (now - created_double <= _ONE_SECOND or record in answers_rrset):", expect='silent')
+  "                    (now - created_double > _ONE_SECOND)\n                    and record not in answers_rrset\n", "                    not (now - created_double <= _ONE_SECOND or record in answers_rrset)\n", expect='silent')
 
 BR = '_services/browser.py'
 # ---------------------------------------------------------------- C04
@@ -967,3 +967,22 @@ V('c05-twin-reader-renamed', 'C05', 'C05.PURGE', '_services/info.py',
         ('_services/info.py', '"List[IPv4Address]", self._get_ip_addresses_from_cache_lifo(zc, now, _TYPE_A)', '"List[IPv4Address]", self._fresh_addresses_newest_first(zc, now, _TYPE_A)'),
         ('_services/info.py', "self._ipv4_addresses = self._get_ip_addresses_from_cache_lifo(zc, now, _TYPE_A)", "self._ipv4_addresses = self._fresh_addresses_newest_first(zc, now, _TYPE_A)")],
   expect='silent')
+
+# ---------------------------------------------------------------- defects F17-F19 re-introduced
+V('c02-memo-miss-by-truth', 'C02', 'C02.NAMELEN', INCF,
+  "            if linked_labels is None:\n", "            if not linked_labels:\n", names=['_decode_labels_at_offset'])
+V('c02-twin-memo-miss-not-in', 'C02', 'C02.NAMELEN', INCF,
+  "            linked_labels = self._name_cache.get(link_py_int)\n            if linked_labels is None:\n",
+  "            linked_labels = self._name_cache.get(link_py_int, None)\n            if None is linked_labels:\n", expect='silent')
+V('c05-flush-renews-expired', 'C05', 'C05.REFRESH', CA,
+  "                    and not record.is_expired(now + _ONE_SECOND)\n", "", names=['async_mark_unique_records_older_than_1s_to_expire'])
+V('c06-flush-renews-expired', 'C06', 'C06.FLOORFLUSH', CA,
+  "                    and not record.is_expired(now + _ONE_SECOND)\n", "", names=['async_mark_unique_records_older_than_1s_to_expire'])
+V('c05-twin-flush-skips-expired-now', 'C05', 'C05.REFRESH', CA,
+  "                    and not record.is_expired(now + _ONE_SECOND)\n", "                    and not record.is_expired(now)\n", expect='silent')
+V('c12-first-packet-questions-only', 'C12', 'C12.ROUTE', QHF,
+  "        questions = [question for msg in msgs for question in msg._questions]\n", "        msg = msgs[0]\n        questions = msg._questions\n", names=['async_response'])
+V('c12-last-packet-questions-only', 'C12', 'C12.ROUTE', QHF,
+  "        questions = [question for msg in msgs for question in msg._questions]\n", "        questions = msgs[-1]._questions\n", names=['async_response'])
+V('c12-twin-questions-extend-loop', 'C12', 'C12.ROUTE', QHF,
+  "        questions = [question for msg in msgs for question in msg._questions]\n", "        questions = []\n        for packet in msgs:\n            questions.extend(packet._questions)\n", expect='silent')
